@@ -694,6 +694,89 @@ def _check_make_ann(ctx: Ctx) -> None:
     check_emission_grammar(ctx, fi)
     ctx.rule("D16.8", "CodeGenerator line / indentation protocol")
     check_code_generator(ctx)
+    ctx.rule("D16.9", "a cached controller is stored under a key that "
+             "determines it")
+    _memo_key(ctx, fi)
+
+
+def _memo_key(ctx: Ctx, fi: FuncInfo) -> None:
+    """`make_ann` caches its results as attributes of itself.  The key must
+    be built from every parameter of the function (each of them changes the
+    generated network), the look-up and the store must use the same key,
+    and what is stored is what is returned."""
+    from sa.pathinline import paths
+    from sa.srcmodel import func_body
+    problems: list[str] = []
+    node: ast.AST = fi.node
+    me = fi.name
+
+    def is_self(e: ast.AST) -> bool:
+        return isinstance(e, ast.Name) and e.id == me
+
+    def keys_of(kind: str, e: ast.AST) -> list[ast.expr]:
+        return [c.args[1] for c in ast.walk(e) if isinstance(c, ast.Call)
+                and isinstance(c.func, ast.Name) and c.func.id == kind
+                and len(c.args) >= 2 and is_self(c.args[0])]
+    try:
+        ps = paths(func_body(fi))
+    except ValueError:
+        ps = []
+    any_cache = False
+    for p in ps:
+        looked: list[ast.expr] = []
+        stored: list[tuple[ast.expr, ast.expr]] = []
+        for t, _truth in p.guards:
+            looked += keys_of("hasattr", t)
+        for e in p.events:
+            v = e.value if isinstance(e.value, ast.AST) else None
+            if v is None:
+                continue
+            looked += keys_of("getattr", v)
+            for c in ast.walk(v):
+                if isinstance(c, ast.Call) and isinstance(
+                        c.func, ast.Name) and c.func.id == "setattr" and \
+                        len(c.args) == 3 and is_self(c.args[0]):
+                    stored.append((c.args[1], c.args[2]))
+                    node = e.node
+        if not looked and not stored:
+            continue
+        any_cache = True
+        keys = {ast.unparse(k) for k in looked} | {
+            ast.unparse(k) for k, _ in stored}
+        if len(keys) != 1:
+            problems.append("the cache is looked up and filled under "
+                            f"different keys: {sorted(keys)[:3]}")
+        # a parameter is accounted for on this path if the key mentions it
+        # or the path condition does (e.g. `len(layers) > 0` is False)
+        gnames = {n.id for t, _ in p.guards for n in ast.walk(t)
+                  if isinstance(n, ast.Name)
+                  and not keys_of("hasattr", t)}
+        for ktxt in sorted(keys):
+            k = ast.parse(ktxt, mode="eval").body
+            names = {n.id for n in ast.walk(k) if isinstance(n, ast.Name)}
+            missing = [p_ for p_ in fi.params
+                       if p_ not in names and p_ not in gnames]
+            if missing:
+                problems.append(
+                    f"the cache key `{ktxt[:90]}` does not depend on "
+                    f"{missing}: two requests that differ only there share "
+                    "one cached controller")
+        rets = [e for e in p.events if e.kind == "return"]
+        for _k, val in stored:
+            if p.ended == "return" and not any(
+                    r.value is not None and ast.unparse(r.value)
+                    == ast.unparse(val) for r in rets):
+                problems.append("what is cached is not what is returned")
+    if not any_cache:
+        ctx.ob("D16.9", fi, fi.node, True,
+               "make_ann keeps no cache", construct="memo key",
+               nontrivial=False)
+        return
+    ctx.ob("D16.9", fi, node, not problems,
+           "controllers are cached under a key built from "
+           f"{', '.join(fi.params)}; look-up and store use the same key"
+           if not problems else "; ".join(dict.fromkeys(problems)),
+           construct="memo key")
 
 
 def _system_outputs(repo: Any, kern: FuncInfo) -> list[Any]:
